@@ -17,6 +17,57 @@ def lifecycle_has_readd(case, res):
     return False
 
 
+def readd_while_queued(res):
+    """F5 proper: at the end of some iteration the error queue holds, for one object, a 'removed'
+    entry and behind it a younger 'added' entry (the re-add arrived while the removal - and
+    whatever was queued before it - was still waiting). A removal merged away by auto-remediation
+    at once never shows this."""
+    for ob in res["iters"]:
+        seen_removed = set()
+        for q in ob["queue"]:
+            i = (q["local"][1], str(q["local"][2]))
+            if q["local"][0] == "removed":
+                seen_removed.add(i)
+            elif q["local"][0] == "added" and i in seen_removed:
+                return True
+    return False
+
+
+def readded_objects(res):
+    removed, out = set(), set()
+    for (o, ts, ev) in res["bus"]:
+        if ev["evcategory"] != "base":
+            continue
+        i = (ev["objtype"], str(ev["objpkey"]))
+        if ev["eventtype"] == "removed":
+            removed.add(i)
+        elif ev["eventtype"] == "added" and i in removed:
+            out.add(i)
+    return out
+
+
+def readded_object_was_queued(case, res):
+    """an object removed and re-added on the bus has an error-queue entry at the end of some iteration"""
+    rname = {l: d["hermesType"] for l, d in case["cdm"].items()}
+    re = readded_objects(res)
+    for ob in res["iters"]:
+        for q in ob["queue"]:
+            if (rname.get(q["local"][1]), str(q["local"][2])) in re:
+                return True
+    return False
+
+
+def recycled_from_queue(res):
+    """F30: a re-add within retention is applied as 'recycled' by a *retry* of the error queue: the
+    'modified' carrying the differences is then appended to the end of the queue as a local-only
+    entry while the retried 'added' entry is still there"""
+    return any(c["h"].endswith("_recycled") and c["retry"] for ob in res["iters"] for c in ob["calls"])
+
+
+def f5(case, res):
+    return lifecycle_has_readd(case, res) and readd_while_queued(res)
+
+
 def older_modified_retried_while_younger_queued(case, res):
     """signature of F19: a queued event is retried successfully while a younger event of
     the same object is still queued - the retry rewrites the expected-state (complete)
@@ -33,7 +84,7 @@ def older_modified_retried_while_younger_queued(case, res):
 
 
 def sig(case, res):
-    if lifecycle_has_readd(case, res):
+    if f5(case, res):
         return "F5-readd-while-removal-queued"
     if older_modified_retried_while_younger_queued(case, res):
         return "F19-complete-cache-regresses-on-retry"
@@ -49,7 +100,7 @@ def run(ctx):
     def sig_fn_idx(i):
         r = res[i][0]
         parts = sub.get(i, {})
-        if lifecycle_has_readd(cases[i], r):
+        if f5(cases[i], r):
             return "F5-readd-while-removal-queued"
         # F19 only explains a transient divergence of the expected-state caches
         if parts.get("c07_fifo_case") and parts.get("c07_healed_case") and older_modified_retried_while_younger_queued(cases[i], r):
